@@ -55,12 +55,12 @@ pub fn spaces(tier: &str) -> Vec<CSpace> {
     // nested parameterised parents, variant-level instructions) - added after seeds C19-02, C07-02
     v.push(CSpace {
         name: "sem-flat".into(),
-        gen: Box::new(|ctx| crate::sem_flat::gen_child(ctx, &crate::sem_flat::FlatOpts { max_members: 3, max_ghosts: 2, max_depth: 2, positional: false }).map(|c| FCase { item: c.item("S", true), tags: c.tags.clone() })),
+        gen: Box::new(|ctx| crate::sem_flat::gen_child(ctx, &crate::sem_flat::FlatOpts { max_members: 3, max_ghosts: 2, max_depth: 2, positional: false, ..crate::sem_flat::FlatOpts::DEF }).map(|c| FCase { item: c.item("S", true), tags: c.tags.clone() })),
         bound: b3(Some(4), Some(6), Some(7)),
     });
     v.push(CSpace {
         name: "sem-flat-pos".into(),
-        gen: Box::new(|ctx| crate::sem_flat::gen_child(ctx, &crate::sem_flat::FlatOpts { max_members: 3, max_ghosts: 2, max_depth: 2, positional: true }).map(|c| FCase { item: c.item("S", true), tags: c.tags.clone() })),
+        gen: Box::new(|ctx| crate::sem_flat::gen_child(ctx, &crate::sem_flat::FlatOpts { max_members: 3, max_ghosts: 2, max_depth: 2, positional: true, ..crate::sem_flat::FlatOpts::DEF }).map(|c| FCase { item: c.item("S", true), tags: c.tags.clone() })),
         bound: b3(Some(4), Some(5), Some(6)),
     });
     v.push(CSpace {
